@@ -418,6 +418,24 @@ func runC19CertChain(chk *vcommon.Check, thorough bool) {
 							}
 						}
 					}
+					// the producer itself must accept a suffix of what it generated (callers re-validate chains on the
+					// generator that produced them), and keep deriving committees by the rule afterwards
+					if chk.Violations() == 0 && len(crts) > 5 {
+						if err := gen.Validate(bg, crts[5:]); err != nil {
+							chk.Violation("certchain-rejects-own-chain", fmt.Sprintf("%+v (chain #%d of this generator): the producer's Validate rejects the suffix from its 6th certificate of the chain it just generated: %v", cc, pass+1, err), rep)
+						} else {
+							for i := init; i < init+length; i++ {
+								got, err := gen.GetCommittee(bg, i)
+								if err != nil {
+									continue
+								}
+								if want := ruleTable(i); !got.PowerTable.Entries.Equal(vfix.Canon(want.table)) || !bytes.Equal(got.Beacon, want.beacon) {
+									chk.Violation("certchain-lookback-differs-from-node-rule", fmt.Sprintf("%+v (chain #%d of this generator): after re-validating a suffix of its own chain the producer's committee for instance %d is no longer the table/beacon at the head finalized %d instances earlier", cc, pass+1, i, lb), rep)
+									break
+								}
+							}
+						}
+					}
 					// a fresh generator over the same EC and manifest must accept what this one generated
 					if chk.Violations() == 0 {
 						fresh, err := certchain.New(certchain.WithEC(e), certchain.WithManifest(m), certchain.WithSignVerifier(keys), certchain.WithSeed(seed+100))
